@@ -445,6 +445,13 @@ def get_model_parser(top_rule, comments_model, **kwargs):
                     encoding=encoding,
                 )
 
+                if not hasattr(model, "_tx_parser"):
+                    # The model is a value of a primitive type (the root rule
+                    # is, or reduces to, a match rule): no model construction
+                    # is ended for it later on.
+                    self._restore_user_attr_methods()
+                    self._drop_user_obj_attrs()
+
             except:  # noqa
                 # Restore of user classes replaced attr methods. If the
                 # parse itself failed they have not been replaced by this
